@@ -21,7 +21,7 @@ import (
 
 const modPath = "x.io/test"
 
-var docForms = []string{"none", "line", "two-lines", "block", "detached", "with-tags", "block-multiline", "two-blocks-on-one-line", "block-then-line"}
+var docForms = []string{"none", "line", "two-lines", "block", "detached", "with-tags", "block-multiline", "two-blocks-on-one-line", "block-then-line", "gofmt-code-block-with-tab-indented-lines"}
 var kinds = []string{"type-ungrouped", "type-grouped", "field", "field-multi", "const-grouped", "const-ungrouped", "var-ungrouped",
 	"field-multiline-type", "type-grouped-multiline", "var-grouped-multiline-value", "type-ungrouped-multiline",
 	// declarations whose own line also holds a nested field list (parameters, inline struct fields, type parameters)
@@ -82,6 +82,11 @@ func docText(form int, name, indent string) (src string, doc []string, tags map[
 	case "block-then-line":
 		src = indent + "/* block of " + name + " */\n" + indent + "// line of " + name + "\n"
 		doc = []string{"block of " + name, "line of " + name}
+	case "gofmt-code-block-with-tab-indented-lines":
+		// a tab is not a space: "\t+x" is no tag line, and the indentation is part of the line
+		src = indent + "// doc of " + name + "\n" + indent + "//\n" + indent + "//\tcode line of " + name + "\n" + indent + "//\t+gengo:notatag=" + name + "\n" + indent + "// +gengo:z=" + name + "\n"
+		doc = []string{"doc of " + name, "", "\tcode line of " + name, "\t+gengo:notatag=" + name}
+		tags = map[string][]string{"gengo:z": {name}}
 	case "detached":
 		src = indent + "// detached comment above " + name + "\n\n"
 	case "with-tags":
@@ -441,6 +446,10 @@ func run(c *core.Ctx) {
 		})
 	}
 	for k := range kinds {
+		if k >= 11 && !c.Thorough() {
+			gen(k, 2) // the five nested-field-list kinds: pairs in the quick tier, triples in the thorough one
+			continue
+		}
 		gen(k, 3)
 	}
 	c.Bound("consecutive_declarations", 3)
@@ -526,7 +535,7 @@ func replay(c *core.Ctx, raw json.RawMessage) {
 func init() {
 	core.Register(&core.Prop{
 		ID: "C12", Level: "model_checking", Run: run, Replay: replay,
-		Rule: "layouts: every assignment of (doc form in {none, line, two lines, block, detached, with tag lines, multi-line block with a tag line, two blocks on one line, block followed by a line comment} x trailing comment yes/no) to 3 (thorough: 4 for two kinds) consecutive declarations, for 16 declaration kinds (ungrouped/grouped types, struct fields, multi-name fields, grouped/ungrouped consts, vars, and multi-line declarations whose trailing comment sits on the closing line: fields of struct type, grouped/ungrouped struct types, grouped vars with multi-line values; and declarations whose own line holds a nested field list: func-typed and inline-struct fields, func types, generic inline structs, vars with func literals); one source file per layout loaded by the real loader, plus every layout of 2 declarations in 4 more file forms (a //line directive renaming the file; CRLF line endings; licence header + build constraint + import before the declarations; a second file of the package with comments on the same line numbers); Doc/tags/Comment of every declared object vs the harness' own knowledge of what it wrote (asked twice, the first answer overwritten by the caller in between). Tag extraction: every single line <=5 (6) over an 8-symbol alphabet (also with custom markers), every pair of lines <=3. Non-trivial = layouts with at least one doc or trailing comment / inputs with at least one tag; states = distinct layout classes / (tags, other lines) counts",
+		Rule: "layouts: every assignment of (doc form in {none, line, two lines, block, detached, with tag lines, multi-line block with a tag line, two blocks on one line, block followed by a line comment, gofmt-style code block with tab-indented lines one of which looks like a tag} x trailing comment yes/no) to 3 (thorough: 4 for two kinds) consecutive declarations, for 16 declaration kinds (ungrouped/grouped types, struct fields, multi-name fields, grouped/ungrouped consts, vars, and multi-line declarations whose trailing comment sits on the closing line: fields of struct type, grouped/ungrouped struct types, grouped vars with multi-line values; and declarations whose own line holds a nested field list: func-typed and inline-struct fields, func types, generic inline structs, vars with func literals); one source file per layout loaded by the real loader, plus every layout of 2 declarations in 4 more file forms (a //line directive renaming the file; CRLF line endings; licence header + build constraint + import before the declarations; a second file of the package with comments on the same line numbers); Doc/tags/Comment of every declared object vs the harness' own knowledge of what it wrote (asked twice, the first answer overwritten by the caller in between). Tag extraction: every single line <=5 (6) over an 8-symbol alphabet (also with custom markers), every pair of lines <=3. Non-trivial = layouts with at least one doc or trailing comment / inputs with at least one tag; states = distinct layout classes / (tags, other lines) counts",
 		Assumptions: []string{
 			"doc lines starting with 'go:' or with leading/trailing blanks are outside the alphabet",
 			"other (non-tag) lines are compared modulo surrounding spaces",
